@@ -10,7 +10,8 @@ PROPS = {
         "timeouts_not_mine": True,
         "lean_modules": ["Props.Clean", "Props.Cells", "Props.Facts19"],
         "groups": [{"name": "render", "quick": 2500, "thorough": 60000}, {"name": "C01misc", "quick": 2000, "thorough": 60000},
-                   {"name": "C14", "quick": 1500, "thorough": 40000}, {"name": "C06", "quick": 1200, "thorough": 30000, "workers": 12}],
+                   {"name": "C14", "quick": 1500, "thorough": 40000}, {"name": "C06", "quick": 1200, "thorough": 30000, "workers": 12},
+                   {"name": "present", "quick": 800, "thorough": 20000, "workers": 12}],
         "rule": "documents from grammars of HTML (inline styles, links, media, blockquotes, lists, headings, pre, hr, unknown tags, character-reference and raw control-character injections), Markdown, gemtext and plain text with URLs x sequences of 1..4 widths (-3..250); "
                 "error text quoting hostile status lines / media types / raw control characters through style.Problem; Scrub and SetLength on raw text with C0, DEL, C1, ESC, tabs; style expressions followed by layout pipelines; "
                 "the Safe predicate (printable, newline, complete SGR sequences only) is evaluated on every implementation output; non-trivial = the input contains a control character / a link / several widths; distinct by op content",
@@ -29,7 +30,8 @@ PROPS = {
     "C14": {
         "timeouts_not_mine": True,
         "lean_modules": ["Props.Cells", "Props.Clean"],
-        "groups": [{"name": "C14", "quick": 4000, "thorough": 100000}, {"name": "render", "quick": 1500, "thorough": 40000}],
+        "groups": [{"name": "C14", "quick": 4000, "thorough": 100000}, {"name": "render", "quick": 1500, "thorough": 40000},
+                   {"name": "presentP", "quick": 600, "thorough": 20000, "workers": 12}],
         "rule": "style expressions (nesting and concatenation of the eight style functions over texts with newlines, blanks, tabs, wide characters) optionally followed by 0..3 layout steps (wrap, dumbwrap, pad, indent, snip, quote, header, bullet, link, linkblock); a terminal state machine is run on the implementation's output: per-character attributes must equal the enclosing style functions, and no attribute may be active at a line break or at the end; plus the render group; "
                 "non-trivial = some character is styled; distinct by op content",
         "trusted": ["the terminal model: ESC[0m / ESC[m clear, any other SGR parameter string is added", LIBS["regexp"]],
@@ -47,7 +49,7 @@ PROPS = {
     },
     "C06": {
         "groups": [{"name": "C06", "quick": 1500, "thorough": 40000, "workers": 12}, {"name": "renderdeep", "quick": 240, "thorough": 6000, "workers": 12},
-                   {"name": "render", "quick": 800, "thorough": 20000}],
+                   {"name": "render", "quick": 800, "thorough": 20000}, {"name": "presentP", "quick": 800, "thorough": 20000, "workers": 12}],
         "rule": "JSON objects with the ActivityStreams keys filled with right- and wrong-typed values (types from all kinds incl. Tombstone/bogus, markup bodies in the four media types incl. 10..70 nested blockquotes, huge/negative/fractional numbers, malformed URLs and timestamps, embedded parents up to depth 3, collections with bogus entries, dead references to a closed port), built as post/actor/activity/any and then every Tangible method called at widths -50..300 and link numbers 0, +-1, 2^31, +-2^63; deep nesting of every block/inline tag to depth 5..65 at widths -1..80; "
                 "a panic or a timeout (10 s) of the real code is an output; non-trivial = at least three strings were produced; distinct by op content",
         "trusted": ["x/net/html, goldmark (time and memory of the external parsers are observed, not proved)", "the Go runtime (wall-clock, memory)"],
